@@ -80,6 +80,10 @@ class MV:
     def shape(self):
         return (SV(self.rows), SV(self.cols))
 
+    @property
+    def T(self):
+        return MV(self.cols, self.rows, lambda r, c: self.f(c, r), self.kind)
+
     def _bin(self, o, op):
         if isinstance(o, MV):
             return MV(self.rows, self.cols, lambda r, c: op(self.f(r, c), o.f(r, c)), self.kind)
